@@ -358,8 +358,26 @@ class Interp:
 
     # -- statements -----------------------------------------------------------------------------
     def block(self, stmts, env):
-        for s in stmts:
-            self.stmt(s, env)
+        """A compound statement: its statements, then -- on every way out -- the destructors of the automatic objects of repository
+        classes declared in it, in reverse order of declaration (RAII guards restore what they saved)."""
+        declared = []
+        try:
+            for s in stmts:
+                if s.get('kind') == 'DeclStmt':
+                    for d in children(s):
+                        if d.get('kind') == 'VarDecl' and '&' not in qt(d) and '*' not in qt(d):
+                            declared.append(d)
+                self.stmt(s, env)
+        finally:
+            for d in reversed(declared):
+                o = env['locals'].get(d['id'])
+                if isinstance(o, Obj) and o.cls in self.idx.records:
+                    dt = next((m for m in self.idx.records[o.cls].methods if m.name.startswith('~') and m.body is not None), None)
+                    if dt is not None and children(dt.body):
+                        try:
+                            self.stmt(dt.body, {'this': o, 'locals': {}})
+                        except _Return:
+                            pass
 
     def stmt(self, n, env):
         k = n.get('kind')
